@@ -62,9 +62,10 @@ class Ref(object):
 
 class AdtVal(object):
     """struct / tuple / enum variant / closure environment; fields materialise lazily"""
-    __slots__ = ("ty", "variant", "fields", "label", "vname")
+    __slots__ = ("ty", "variant", "fields", "label", "vname", "site")
 
-    def __init__(self, ty, variant=None, fields=None, label=None, vname=None):
+    def __init__(self, ty, variant=None, fields=None, label=None, vname=None, site=None):
+        self.site = site  # file:line of the aggregate expression that built the value (None for materialised values)
         self.ty = ty
         self.variant = variant
         self.fields = fields if fields is not None else {}
@@ -132,7 +133,7 @@ def lab(v):
 
 def copy_val(v):
     if isinstance(v, AdtVal):
-        return AdtVal(v.ty, v.variant, dict((k, Cell(copy_val(c.val))) for k, c in v.fields.items()), v.label, v.vname)
+        return AdtVal(v.ty, v.variant, dict((k, Cell(copy_val(c.val))) for k, c in v.fields.items()), v.label, v.vname, v.site)
     if isinstance(v, VecVal):
         return VecVal([Cell(copy_val(c.val)) for c in v.elems])
     return v
@@ -380,6 +381,16 @@ class Machine(object):
                     cell = v.elems[-n] if e["from_end"] else v.elems[n]
                 else:
                     cell = Cell(Opaque(("index", lab(v), ("const", "int", -e["offset"] if e["from_end"] else e["offset"]))))
+            elif k == "subslice":
+                v = cell.val
+                if isinstance(v, VecVal):
+                    n = len(v.elems)
+                    lo, hi = e["from"], (n - e["to"] if e["from_end"] else e["to"])
+                    if lo > hi or hi > n:
+                        raise Unsupported("subslice out of range")
+                    cell = Cell(VecVal(v.elems[lo:hi]))   # the same cells: a view
+                else:
+                    cell = Cell(Opaque(("subslice", lab(v), e["from"], e["to"], e["from_end"])))
             else:
                 raise Unsupported("projection %s" % k)
         return cell
@@ -571,6 +582,8 @@ class Machine(object):
         for s in blk["stmts"]:
             if s["k"] == "assign":
                 v = self.eval_rvalue(st, fr, s["rv"], s["lhs"]["ty"])
+                if s["rv"]["k"] == "aggregate" and isinstance(v, AdtVal):
+                    v.site = loc(s)
                 c = self.eval_place(st, fr, s["lhs"], for_write=True)
                 self.write(st, fr, s["lhs"], c, v, s)
             elif s["k"] == "set_discriminant":
